@@ -110,25 +110,37 @@ def _default_seq(iterable):
             raise Unsupported("cut loop over a range with start/step")
         return iterable.stop, (lambda i: i)
     if isinstance(iterable, SymRange):
-        return iterable.n, (lambda i: i)
+        return iterable.n, iterable.at
     if hasattr(iterable, "__symlen__") and hasattr(iterable, "at"):
         return iterable.__symlen__(), iterable.at
     raise Unsupported("cut loop over %s" % type(iterable).__name__)
 
 
 class SymRange:
-    """range(n) for a symbolic n (bound as `range` in the shadow namespace of a cut function)"""
+    """range(start, stop, step) with a symbolic stop (start, step concrete, step > 0), bound as
+    `range` in the shadow namespace of a cut function: n = ceil((stop - start) / step) items."""
 
-    def __init__(self, n):
-        self.n = n
+    def __init__(self, stop, start=0, step=1):
+        self.start, self.stop, self.step = start, stop, step
+        span = stop - start
+        n = (span + (step - 1)) // step if step != 1 else span
+        self.n = sym.Ite(span > 0, n, 0) if isinstance(span, SymNum) else max(0, n)
+
+    def at(self, i):
+        return self.start + i * self.step
 
     def __iter__(self):
         raise Unsupported("iteration over range(symbolic) outside a cut loop")
 
 
 def range_(*a):
-    if len(a) == 1 and isinstance(a[0], SymNum) and a[0].concrete() is None:
+    def conc(x):
+        return x.concrete() if isinstance(x, SymNum) else x
+
+    if len(a) == 1 and conc(a[0]) is None:
         return SymRange(a[0])
+    if len(a) in (2, 3) and conc(a[0]) is not None and conc(a[1]) is None and (len(a) == 2 or (conc(a[2]) or 0) > 0):
+        return SymRange(a[1], conc(a[0]), conc(a[2]) if len(a) == 3 else 1)
     return range(*[x.__index__() if isinstance(x, SymNum) else x for x in a])
 
 
